@@ -29,7 +29,8 @@ async fn start_mock(log: Log) -> std::net::SocketAddr {
             if let Some(evs) = body.get("events").and_then(|e| e.as_array()) {
                 let mut g = l.lock().unwrap();
                 for e in evs {
-                    let seq = e.get("fields").and_then(|f| f.get("seq")).and_then(|s| s.as_i64()).unwrap_or(-1);
+                    let seq = e.get("fields").and_then(|f| f.get("seq"))
+                        .and_then(|s| s.as_i64().or_else(|| s.as_str().and_then(|t| t.parse().ok()))).unwrap_or(-1);
                     g.push((id.clone(), seq));
                     n += 1;
                 }
@@ -252,6 +253,46 @@ pub fn run(ctx: &mut Ctx, _name: &str) {
         if !ctx.thorough && i % 3 != (ctx.seed % 3) as usize && i > 12 { continue; }
         let scn = deploy(ctx, &addr, &pipes2(), t, 0);
         for ty in small_types { seq += 1; single(ctx, &scn, ty, &Key::Missing, seq); ctx.count("table.exhaustive_case"); }
+    }
+
+    // ---- part 3: float literals with up to 17 significant digits through both paths (the two parsers,
+    // serde_json and core::str::parse::<f64>, are outside the model): same literal, same replica?
+    {
+        let pipes = vec![PipeSpec { name: "p1".into(), n: 5, key: Some("k".into()) }];
+        let scn = deploy(ctx, &addr, &pipes, &[], 0);
+        let n = if ctx.thorough { 6000 } else { 600 };
+        for i in 0..n {
+            let f = loop {
+                let f = match i % 4 {
+                    0 => f64::from_bits(ctx.rng.next()),
+                    3 => { // at most 15 significant digits, small decimal exponent: both parsers are exact here
+                        let d = 1 + ctx.rng.below(15) as u32;
+                        let m = ctx.rng.next() % 10u64.pow(d);
+                        let e = ctx.rng.below(21) as i32;
+                        let s = format!("{}e-{}", m, e);
+                        let f: f64 = s.parse().unwrap_or(1.0);
+                        if ctx.rng.chance(1, 2) { -f } else { f }
+                    }
+                    1 => (ctx.rng.next() % 100_000_000_000_000_000u64) as f64 / 10f64.powi(ctx.rng.below(20) as i32),
+                    _ => (ctx.rng.next() as f64) * 10f64.powi(ctx.rng.range(-25, 5) as i32),
+                };
+                if f.is_finite() && f.abs() > 1e-40 && f.abs() < 1e40 { break f; }
+            };
+            let lit = format!("{:?}", f);
+            seq += 1;
+            let body = format!("{{\"event_type\": \"a\", \"fields\": {{\"k\": {}, \"seq\": {}}}}}", lit, seq);
+            let req: InjectEventRequest = match serde_json::from_str(&body) { Ok(r) => r, Err(e) => { eprintln!("generator error: {body}: {e}"); std::process::exit(3); } };
+            let s1 = scn.coord.resolve_inject_target(&scn.gid, &req).map(|t| t.target_name).unwrap_or_else(|e| format!("err:{}", e).replace(' ', "_"));
+            log.lock().unwrap().clear();
+            let text = format!("a {{ k: {}, seq: {} }}\n", lit, seq);
+            let _ = rt.block_on(scn.coord.inject_batch(&scn.gid, InjectBatchRequest { events_text: text }));
+            let s2 = log.lock().unwrap().first().and_then(|(id, _)| scn.id2name.get(id).cloned()).unwrap_or_else(|| "lost".into());
+            ctx.count(if lit.contains('e') { "fkey.exponent_literal" } else { "fkey.plain_literal" });
+            let sig = lit.trim_start_matches('-').split('e').next().unwrap_or("").replace('.', "").trim_start_matches('0').len();
+            ctx.count(if sig > 15 { "fkey.more_than_15_digits" } else { "fkey.up_to_15_digits" });
+            if s1 != s2 { ctx.count("fkey.paths_disagree"); }
+            ctx.case(&format!("fkey {}", lit), &format!("{},{}", s1, s2));
+        }
     }
 
     // ---- part 2: random groups with replicas, both injection paths interleaved
